@@ -165,6 +165,7 @@ inductive Touch (s s' : Sys) (m : Msg) (ms : List Msg) : Prop where
       (h : s'.hub = s.hub) (b : s'.bsei = s.bsei) (r : s'.reward = s.reward) (d : s'.disp = s.disp) (g : s'.reg = s.reg)
   | reward (s1 : Sys) (sender : Addr) (funds : List (Denom × Nat)) (rm : RewMsg)
       (heq : m = .wasm sender rewardA (.reward rm) funds) (h1 : SameContracts s s1)
+      (hmv : s.moveFunds sender rewardA funds = .ok s1) (hch : s'.chain = s1.chain)
       (hx : rewardExec s.reward rewardA (s1.hubTokenOf s1.reward.hub) (s1.hubDispatcherOf s1.reward.hub)
               (s1.chain.bank rewardA) sender rm = .ok (s'.reward, ms))
       (h : s'.hub = s.hub) (b : s'.bsei = s.bsei) (t : s'.stsei = s.stsei) (d : s'.disp = s.disp) (g : s'.reg = s.reg)
@@ -268,7 +269,7 @@ theorem handle_touch (s s' : Sys) (m : Msg) (ms : List Msg) (hx : s.handle m = .
                 · cases hx
                 · rename_i r hr
                   cases hx
-                  refine .reward s1 sender funds rm (by rw [t4]) sc ?_ sc.hub sc.bsei sc.stsei sc.disp sc.reg
+                  refine .reward s1 sender funds rm (by rw [t4]) sc (by rw [← t4]; exact h1) rfl ?_ sc.hub sc.bsei sc.stsei sc.disp sc.reg
                   rw [← sc.reward]; exact hr
               · cases hx
             · simp only [t4, if_false] at hx
@@ -344,7 +345,7 @@ theorem handle_sentBy (s s' : Sys) (m : Msg) (ms : List Msg) (hx : s.handle m = 
     | stsei blk sender funds tm heq hx' h b' r d' g =>
       rw [hm] at heq; injection heq with _ e2 _ _; subst e2
       exact stseiExec_sentBy _ _ _ _ _ _ _ _ hx'
-    | reward s1 sender funds rm heq h1 hx' h b' t d' g =>
+    | reward s1 sender funds rm heq h1 _ _ hx' h b' t d' g =>
       rw [hm] at heq; injection heq with _ e2 _ _; subst e2
       exact rewardExec_sentBy _ _ _ _ _ _ _ _ _ hx'
     | disp env sender funds dm heq hx' h b' t r g =>
@@ -388,7 +389,7 @@ theorem exec_rejected_hub (s : Sys) (sender : Addr) (funds : List (Denom × Nat)
       rw [he] at hx'; cases hx'
     | bsei s1 sender' funds' tm heq _ _ _ _ _ _ _ => injection heq with _ e2 _ _; cases e2
     | stsei blk sender' funds' tm heq _ _ _ _ _ _ => injection heq with _ e2 _ _; cases e2
-    | reward s1 sender' funds' rm heq _ _ _ _ _ _ _ => injection heq with _ e2 _ _; cases e2
+    | reward s1 sender' funds' rm heq _ _ _ _ _ _ _ _ _ => injection heq with _ e2 _ _; cases e2
     | disp env sender' funds' dm heq _ _ _ _ _ _ => injection heq with _ e2 _ _; cases e2
     | reg s1 sender' funds' rm heq _ _ _ _ _ _ _ => injection heq with _ e2 _ _; cases e2
 
@@ -415,7 +416,7 @@ theorem exec_rejected_disp (s : Sys) (sender : Addr) (funds : List (Denom × Nat
     | hub s1 sender' funds' hm' heq _ _ _ _ _ _ _ _ => injection heq with _ e2 _ _; cases e2
     | bsei s1 sender' funds' tm heq _ _ _ _ _ _ _ => injection heq with _ e2 _ _; cases e2
     | stsei blk sender' funds' tm heq _ _ _ _ _ _ => injection heq with _ e2 _ _; cases e2
-    | reward s1 sender' funds' rm heq _ _ _ _ _ _ _ => injection heq with _ e2 _ _; cases e2
+    | reward s1 sender' funds' rm heq _ _ _ _ _ _ _ _ _ => injection heq with _ e2 _ _; cases e2
     | reg s1 sender' funds' rm heq _ _ _ _ _ _ _ => injection heq with _ e2 _ _; cases e2
 
 theorem exec_rejected_reward (s : Sys) (sender : Addr) (funds : List (Denom × Nat)) (rm : RewMsg)
@@ -432,7 +433,7 @@ theorem exec_rejected_reward (s : Sys) (sender : Addr) (funds : List (Denom × N
       · exact hm' _ _ _ _ rfl
       · injection heq with _ e2 _ _
         rcases ht with ht | ht <;> (rw [ht] at e2; cases e2)
-    | reward s1 sender' funds' rm' heq _ hx' _ _ _ _ _ =>
+    | reward s1 sender' funds' rm' heq _ _ _ hx' _ _ _ _ _ =>
       injection heq with e1 _ e3 e4
       injection e3 with e3
       subst e1; subst e3; subst e4
